@@ -607,7 +607,7 @@ func (e *env) realRun(s *Step) {
 		_ = os.Unsetenv(k)
 	}
 	if d, err := dag.Load("", loc, e.lastParams); err == nil {
-		s.Want = strings.Join(d.Params, " ")
+		s.Want = model.Params(d.Params) // the way a run records the parameters it was started with
 		s.WantEnv = os.Getenv("1") + "|" + os.Getenv("2") + "|" + os.Getenv("NAME")
 	} else {
 		s.ExecNote = "reference load failed: " + err.Error()
